@@ -273,6 +273,13 @@ class Evaluator:
         n = f.strip(n, casts=False)
         while n is not None and n["k"] in CAST_KINDS and n.get("ck") in ("NoOp", "ArrayToPointerDecay", "BitCast") and n.get("c"):
             n = f.strip(n["c"][0], casts=False)
+        if n["k"] in ("CallExpr", "CXXMemberCallExpr"):
+            # the object a call returns by reference: the call is folded (once per evaluation of this designator) and names it
+            # (the call itself is folded by whoever needs its value; this only names what it returned)
+            rk_ = (getattr(self, "_ret_keys", None) or {}).get(n["id"])
+            if rk_ is not None:
+                return rk_
+            raise Unknown("object returned by %s" % render(f, n))
         if n["k"] == "ArraySubscriptExpr":
             bn = f.node(n["base"])
             bs = f.strip(bn, casts=True)
@@ -654,6 +661,13 @@ class Evaluator:
                         if self.pass_object == "key" and (on__.get("ct") or "").rstrip().endswith("*"):
                             pv__ = self.as_ptr(self.ev(on__))      # p->m(): the designator of *p
                             args.append("%s[%d]" % (pv__[1], pv__[2]) if isinstance(pv__, tuple) and pv__[0] == "ptr" else ("@%d" % pv__ if isinstance(pv__, int) else pv__))
+                        elif self.pass_object == "key" and f.strip(on__) is not None and f.strip(on__)["k"] in ("CallExpr", "CXXMemberCallExpr"):
+                            # the object is what a call returns by reference: fold the call once, then name the lvalue it returned
+                            try:
+                                self.ev(on__)
+                            except Unknown:
+                                pass
+                            args.append((getattr(self, "_ret_keys", None) or {}).get(f.strip(on__)["id"]))
                         else:
                             args.append(self.lkey(on__) if self.pass_object == "key" else self.ev(on__))
                     except Unknown:
@@ -826,6 +840,19 @@ class Evaluator:
                     self.wraps.extend(sub.wraps)
                 self.trace.extend(sub.trace)
                 r = getattr(sub, "ret", None)
+                if isinstance(r, tuple) and r and r[0] == "lvalue":
+                    # the callee returned a reference to an lvalue: its designator in THIS frame (members of another object get
+                    # that object's prefix), and its value when it has one
+                    rk_ = r[1]
+                    rootk_ = rk_.split(".")[0].split("[")[0]
+                    if prefix is not None and rootk_ in fields:
+                        rk_ = prefix + rk_
+                    if not hasattr(self, "_ret_keys"):
+                        self._ret_keys = {}
+                    self._ret_keys[n["id"]] = rk_
+                    if rk_ in self.env:
+                        return self.env[rk_]
+                    raise Unknown("inlined %s returns the object %s" % (nm, rk_))
                 if r is None or (isinstance(r, tuple) and r[0] not in ("ptr", "str", "fn")):
                     raise Unknown("inlined %s: %s" % (nm, r))
                 return r
@@ -1256,6 +1283,26 @@ class Evaluator:
                                             self.env.pop(key_, None)
                                 fill(d["name"], i0_, (self.tinfo(d.get("ct")) or {}).get("extent"))
                                 continue
+                            if (d.get("ct") or "").rstrip().endswith("&") and i0_ is not None and i0_["k"] in ("CallExpr", "CXXMemberCallExpr"):
+                                # a reference bound to what a call returns: an alias of the lvalue the (folded) callee returned, else the value
+                                thrown__ = False
+                                try:
+                                    v__ = self.ev(d["init"])
+                                except Thrown:
+                                    thrown__ = True          # (handled by the general path below, which folds the throwing call again)
+                                except Unknown:
+                                    v__ = None
+                                if not thrown__:
+                                    rk__ = (getattr(self, "_ret_keys", None) or {}).get(i0_["id"])
+                                    if rk__ is not None:
+                                        if not hasattr(self, "alias") or self.alias is None:
+                                            self.alias = {}
+                                        self.alias[d["name"]] = rk__
+                                    elif v__ is not None:
+                                        self.env[d["name"]] = v__
+                                    else:
+                                        self.env.pop(d["name"], None)
+                                    continue
                             if (d.get("ct") or "").rstrip().endswith("&") and i0_ is not None and (i0_["k"] in ("DeclRefExpr", "MemberExpr", "ArraySubscriptExpr") or (i0_["k"] == "UnaryOperator" and i0_.get("op") == "*")):
                                 # a local reference to an object or variable: an alias of that lvalue
                                 try:
@@ -1295,6 +1342,16 @@ class Evaluator:
                     break
                 if n["k"] == "ReturnStmt":
                     if n.get("value") is not None:
+                        # a function that returns a reference to an lvalue (table_[i], *p, a member): remember which
+                        if (f.ret or "").rstrip().endswith("&"):
+                            rv_ = f.strip(f.node(n["value"]))
+                            if rv_ is not None and (rv_["k"] in ("DeclRefExpr", "MemberExpr", "ArraySubscriptExpr") or (rv_["k"] == "UnaryOperator" and rv_.get("op") == "*")):
+                                try:
+                                    self.ret_key = self.lkey(rv_)
+                                    self.ret = ("lvalue", self.ret_key)
+                                    return "return", visited
+                                except Unknown:
+                                    pass
                         try:
                             self.ret = self.ev(f.node(n["value"]))
                         except Thrown as t_:
